@@ -29,13 +29,15 @@ def prefs(name):
                     ciphers=[SymmetricKeyAlgorithm.AES128, SymmetricKeyAlgorithm.CAST5], compression=[CompressionAlgorithm.BZ2],
                     key_expiration=timedelta(days=3650), primary=True)
     if name == 'P3':
-        return dict(usage={KeyFlags.Certify}, hashes=[HashAlgorithm.SHA384, HashAlgorithm.SHA256], ciphers=[SymmetricKeyAlgorithm.Camellia256],
+        # (the flags as a single member, which the API takes as well as a set or a list)
+        return dict(usage=KeyFlags.Certify, hashes=[HashAlgorithm.SHA384, HashAlgorithm.SHA256], ciphers=[SymmetricKeyAlgorithm.Camellia256],
                     compression=[CompressionAlgorithm.ZIP], primary=False)
     if name == 'P4':
         # the same kind of preferences with the key expiry given as a point in time, in a zone that is not UTC (the API takes timedelta or datetime)
         from datetime import datetime, timezone
         when = datetime.fromtimestamp(K.T0 + 86400 * 4000 + 1800, timezone(timedelta(hours=-8)))
-        return dict(usage={KeyFlags.Certify, KeyFlags.Sign}, hashes=[HashAlgorithm.SHA256], ciphers=[SymmetricKeyAlgorithm.AES192],
+        # (the flags as one OR-ed mask, which the API takes as well as a set or a list)
+        return dict(usage=KeyFlags.Certify | KeyFlags.Sign, hashes=[HashAlgorithm.SHA256], ciphers=[SymmetricKeyAlgorithm.AES192],
                     compression=[CompressionAlgorithm.ZLIB], key_expiration=when)
     raise KeyError(name)
 
@@ -43,7 +45,10 @@ def prefs(name):
 def prefs_view(name):
     """What the model expects to read back from the effective self-signature."""
     p = prefs(name)
-    return {'flags': frozenset(int(f) for f in p['usage']), 'hashes': tuple(int(h) for h in p['hashes']), 'ciphers': tuple(int(c) for c in p['ciphers']),
+    usage = p['usage']
+    if not isinstance(usage, (set, list)):
+        usage = [f for f in (1, 2, 4, 8, 16, 32, 128) if int(usage) & f]
+    return {'flags': frozenset(int(f) for f in usage), 'hashes': tuple(int(h) for h in p['hashes']), 'ciphers': tuple(int(c) for c in p['ciphers']),
             'compression': tuple(int(c) for c in p['compression']), 'primary': bool(p.get('primary', False)),
             'expiry': (int(p['key_expiration'].total_seconds()) if hasattr(p['key_expiration'], 'total_seconds') else int(p['key_expiration'].timestamp()) - K.T0)
             if 'key_expiration' in p else None}
@@ -181,7 +186,9 @@ class World(object):
             sk = K.pgpy_secret(sraw)
             # (when the key is protected this runs inside its unlock scope: the new subkey itself is not protected - the key then has components in
             # different protection states, which must survive the end of the scope, export and import like any other key)
-            key.add_subkey(sk, usage=self.lend({KeyFlags.Sign} if op == 'add_sub_sign' else {KeyFlags.EncryptCommunications, KeyFlags.EncryptStorage}), created=t)
+            # (usage as a set for the signing subkey, as a list for the encryption subkey and the direct-key signature, as one OR-ed mask / a single member in
+            # the preference sets P4 / P3: the forms the API takes - bind() itself refuses a mask)
+            key.add_subkey(sk, usage=self.lend({KeyFlags.Sign} if op == 'add_sub_sign' else [KeyFlags.EncryptCommunications, KeyFlags.EncryptStorage]), created=t)
             self.sub_raws[name] = sraw
             m.subs.append({'kind': 'sign' if op == 'add_sub_sign' else 'enc', 'name': name, 'revoked': False})
         elif op in ('recert_A_P2', 'recert_A_P4', 'recert_A_P3_same_second', 'recert_A_P2_generic_same_second', 'recert_B_P3'):
@@ -229,7 +236,7 @@ class World(object):
             m.revokers += 1
         elif op == 'direct_sig':
             t = self.tick()
-            key |= key.certify(key, created=t, usage=self.lend({KeyFlags.Certify, KeyFlags.Sign}))
+            key |= key.certify(key, created=t, usage=self.lend([KeyFlags.Certify, KeyFlags.Sign]))
             m.direct += 1
         elif op == 'direct_third_local':
             t = self.tick()
